@@ -263,6 +263,8 @@ pub struct SrcState {
     pub epoch: usize,
     pub fault_at: Option<usize>,
     pub persistent: bool,
+    /// kind of the injected error: rotates with the fault point (see `injected_kind`)
+    pub error_kind: u8,
     pub chunking: Chunking,
     rng: Option<Rng>,
     pub attempts: usize,
@@ -290,6 +292,7 @@ impl Src {
         let s = Src::new(data);
         s.0.borrow_mut().fault_at = Some(at);
         s.0.borrow_mut().persistent = persistent;
+        s.0.borrow_mut().error_kind = (at % 7) as u8;
         s
     }
     pub fn set_epoch(&self, e: usize) {
@@ -327,7 +330,7 @@ impl Read for Src {
         let e = s.epoch;
         if s.should_fail() {
             s.ops.push((e, ROp::Failed('r')));
-            return Err(injected());
+            return Err(injected_kind(s.error_kind));
         }
         let p = (s.pos as usize).min(s.data.len());
         let avail = s.data.len() - p;
@@ -355,7 +358,7 @@ impl Seek for Src {
         let e = s.epoch;
         if s.should_fail() {
             s.ops.push((e, ROp::Failed('s')));
-            return Err(injected());
+            return Err(injected_kind(s.error_kind));
         }
         let np = match p {
             SeekFrom::Start(x) => x as i128,
